@@ -126,26 +126,31 @@ func c09b(c *Ctx) {
 	if fn := c.Fn("parser.Parser.parseCommandStatement"); fn != nil {
 		n := 0
 		instrs(fn, func(in ssa.Instruction) {
-			a, ok := in.(*ssa.Alloc)
-			if !ok || a.Comment != "complit" || !typeIs(a.Type(), "parser", "impText") {
+			// record sites: appends of impText values (composite literal or constructor helper)
+			ap, ok := in.(*ssa.Call)
+			if !ok || calleeName(ap) != "builtin:append" {
 				return
 			}
-			n++
-			whole := ""
-			for _, ref := range *a.Referrers() {
-				if u, ok := ref.(*ssa.UnOp); ok && u.X == ssa.Value(a) {
-					whole = c.term(fn, u)
-				}
+			sl, ok := ap.Type().Underlying().(*types.Slice)
+			if !ok || !typeIs(sl.Elem(), "parser", "impText") {
+				return
 			}
-			_, f := c.withFields(fn, whole)
-			pos := c.W.Pos(a.Pos())
+			es := appendElems(ap)
+			if len(es) != 1 {
+				return
+			}
+			ev := es[0]
+			n++
+			whole := c.term(fn, ev)
+			f := c.valueFields(fn, ev, ap)
+			pos := c.W.Pos(ap.Pos())
 			key := fmt.Sprintf("parseCommandStatement/inline-text#%d", n)
 			if f == nil {
 				c.Unk(key, pos, "cannot read record "+whole)
 				return
 			}
 			st := f["stringType"]
-			if st == "" {
+			if st == "" || st == "zero" {
 				st = `""`
 			}
 			tb, tf := c.withFields(fn, f["text"])
@@ -156,36 +161,26 @@ func c09b(c *Ctx) {
 			// the recorded type must be decided within this argument: "" / the prefix token of this
 			// very string / the type returned by format(); never a value carried over from an
 			// earlier argument (loop-carried)
-			for _, ref := range *a.Referrers() {
-				fa, ok := ref.(*ssa.FieldAddr)
-				if !ok || fieldName(fa.X.Type(), fa.Field) != "stringType" {
-					continue
-				}
-				for _, r2 := range *fa.Referrers() {
-					stt, ok := r2.(*ssa.Store)
-					if !ok || stt.Addr != ssa.Value(fa) {
-						continue
+			if sv := c.fieldSource(fn, ev, "stringType", ap); sv != nil {
+				carried := false
+				var walk func(v ssa.Value, seen map[ssa.Value]bool)
+				walk = func(v ssa.Value, seen map[ssa.Value]bool) {
+					if seen[v] {
+						return
 					}
-					carried := false
-					var walk func(v ssa.Value, seen map[ssa.Value]bool)
-					walk = func(v ssa.Value, seen map[ssa.Value]bool) {
-						if seen[v] {
+					seen[v] = true
+					if ph, isPhi := v.(*ssa.Phi); isPhi {
+						if isLoopHeader(ph.Block()) {
+							carried = true
 							return
 						}
-						seen[v] = true
-						if ph, isPhi := v.(*ssa.Phi); isPhi {
-							if isLoopHeader(ph.Block()) {
-								carried = true
-								return
-							}
-							for _, e := range ph.Edges {
-								walk(e, seen)
-							}
+						for _, e := range ph.Edges {
+							walk(e, seen)
 						}
 					}
-					walk(stt.Val, map[ssa.Value]bool{})
-					c.Check(!carried, key+"/type-not-carried-over", pos, "the string type recorded for an argument is determined by that argument alone", "the string type recorded for this inline text can be a value carried over from an earlier argument of the same command (it is merged at the head of the argument loop): a plain string after a typed one would inherit its type")
 				}
+				walk(sv, map[ssa.Value]bool{})
+				c.Check(!carried, key+"/type-not-carried-over", pos, "the string type recorded for an argument is determined by that argument alone", "the string type recorded for this inline text can be a value carried over from an earlier argument of the same command (it is merged at the head of the argument loop): a plain string after a typed one would inherit its type")
 			}
 			okFmt := strings.HasPrefix(lit, "(*parser.Parser).formatTextTerminator($0,") && strings.HasSuffix(lit, ","+st+")")
 			c.Check(okFmt, key+"/terminated-with-own-type", pos, "recorded text = formatTextTerminator(content, recorded string type)", "the recorded text literal is "+pretty(lit)+" while the recorded string type is "+pretty(st)+": the terminator must be applied to the content with exactly that type before the text is recorded (the dedup key is the terminated text)")
